@@ -343,7 +343,12 @@ func TestVerifC19Installs(t *testing.T) {
 		if len(hist) > 0 {
 			idx++
 			if idx%nsh == shard {
-				runInstallHistory(t, rep, name, hist, writeIndex, rootKeyID, rootPub, freshKeyID, freshPub, idx)
+				runInstallHistory(t, rep, name, hist, writeIndex, rootKeyID, rootPub, freshKeyID, freshPub, idx, false)
+				if len(hist) <= 2 {
+					// non-initial start state: files nobody verified already sit at the names the artifacts are installed under
+					// (a hand-dropped binary, the leftover of an install whose manifest was lost)
+					runInstallHistory(t, rep, name, hist, writeIndex, rootKeyID, rootPub, freshKeyID, freshPub, idx, true)
+				}
 			}
 		}
 		if len(hist) == depth {
@@ -360,12 +365,19 @@ func TestVerifC19Installs(t *testing.T) {
 }
 
 func runInstallHistory(t *testing.T, rep *verifkit.Report, name string, hist []step, writeIndex func(step) string,
-	rootKeyID string, rootPub ed25519.PublicKey, freshKeyID string, freshPub ed25519.PublicKey, idx int) {
+	rootKeyID string, rootPub ed25519.PublicKey, freshKeyID string, freshPub ed25519.PublicKey, idx int, foreign bool) {
 	connectorsPath, err := os.MkdirTemp("", "verif-c19-conn-")
 	if err != nil {
 		t.Fatal(err)
 	}
 	defer os.RemoveAll(connectorsPath)
+	if foreign {
+		for _, f := range installedFileNames(t, name, hist, writeIndex, rootKeyID, rootPub, freshKeyID, freshPub) {
+			if err := os.WriteFile(filepath.Join(connectorsPath, f), []byte("foreign-bytes"), 0o755); err != nil {
+				t.Fatal(err)
+			}
+		}
+	}
 	statePath := IndexStatePath(connectorsPath)
 	tv := &TrustedVerifier{Anchors: index.TrustAnchors{Roots: map[string]ed25519.PublicKey{rootKeyID: rootPub}, Freshness: map[string]ed25519.PublicKey{freshKeyID: freshPub}}, StatePath: statePath}
 	// reference state
@@ -373,9 +385,12 @@ func runInstallHistory(t *testing.T, rep *verifkit.Report, name string, hist []s
 	rootContent := "" // content last verified under a root signature
 	installed := ""   // content of the installed artifact ("" none)
 	key := fmt.Sprint(hist)
+	if foreign {
+		key = "foreign files at the final names + " + key
+	}
 	rep.State(key)
 	bad := func(k, text string) {
-		rep.AddViolation(verifkit.Violation{Key: "C19/" + k, Text: text + " [install history " + key + "]", Replay: map[string]any{"history": hist}})
+		rep.AddViolation(verifkit.Violation{Key: "C19/" + k, Text: text + " [install history " + key + "]", Replay: map[string]any{"history": hist, "foreign_files": foreign}})
 	}
 	for si, s := range hist {
 		opts := InstallOptions{Name: name, ConnectorsPath: connectorsPath, IndexFile: writeIndex(s), IndexVerifier: tv, ArtifactVerifier: artVerifier{s.Verifier},
@@ -413,6 +428,15 @@ func runInstallHistory(t *testing.T, rep *verifkit.Report, name string, hist []s
 			}
 		}
 		st, _ := index.LoadState(statePath)
+		// what an install that passed every gate reports as done must be what sits in the install directory: the bytes
+		// of the verified artifact, under the name it is run from - not whatever was there before
+		if mayInstall && err == nil {
+			for _, f := range files {
+				if b, rerr := os.ReadFile(filepath.Join(connectorsPath, f)); rerr == nil && string(b) == "foreign-bytes" && strings.HasSuffix(f, versionOf(s.Content)) {
+					bad("installed-file-is-not-the-verified-artifact", fmt.Sprintf("step %d %s: the install succeeded (digest checked, verifier accepted) but %s still holds bytes that were never verified", si+1, s, f))
+				}
+			}
+		}
 		if !mayInstall && gotContent != installed {
 			bad("artifact-installed-without-passing-every-gate", fmt.Sprintf("step %d %s: the install directory changed (now %v, content %q) although index acceptable=%v, digest=%s, verifier=%s, dry-run=%v (err=%v)", si+1, s, files, gotContent, indexOK, s.Digest, s.Verifier, s.DryRun, firstLineC19(err)))
 		}
@@ -446,6 +470,55 @@ func runInstallHistory(t *testing.T, rep *verifkit.Report, name string, hist []s
 	if idx%1499 == 3 {
 		rep.Sample(map[string]any{"history": key, "high_water": highWater, "installed": installed})
 	}
+}
+
+func versionOf(content string) string {
+	if content == "B" {
+		return "2.0.0"
+	}
+	return "1.0.0"
+}
+
+var installedNamesCache = map[string]string{}
+
+// installedFileNames learns, from real fault-free installs in a scratch directory, under which file names the
+// artifacts of the history's contents are installed.
+func installedFileNames(t *testing.T, name string, hist []step, writeIndex func(step) string,
+	rootKeyID string, rootPub ed25519.PublicKey, freshKeyID string, freshPub ed25519.PublicKey) []string {
+	var out []string
+	for _, c := range []string{"A", "B"} {
+		used := false
+		for _, s := range hist {
+			used = used || s.Content == c
+		}
+		if !used {
+			continue
+		}
+		if f, ok := installedNamesCache[c]; ok {
+			out = append(out, f)
+			continue
+		}
+		dir, err := os.MkdirTemp("", "verif-c19-names-")
+		if err != nil {
+			t.Fatal(err)
+		}
+		tv := &TrustedVerifier{Anchors: index.TrustAnchors{Roots: map[string]ed25519.PublicKey{rootKeyID: rootPub}, Freshness: map[string]ed25519.PublicKey{freshKeyID: freshPub}}, StatePath: IndexStatePath(dir)}
+		s := step{Version: 10, Role: "root", Content: c, Digest: "ok", Verifier: "accept"}
+		_, err = Install(context.Background(), InstallOptions{Name: name, ConnectorsPath: dir, IndexFile: writeIndex(s), IndexVerifier: tv, ArtifactVerifier: artVerifier{"accept"},
+			RunningConduitVersion: "0.14.0", RunningProtocolVersion: "0.1.0", LockTimeout: 2 * time.Second})
+		if err != nil {
+			t.Fatalf("reference install of content %s failed: %v", c, err)
+		}
+		entries, _ := os.ReadDir(dir)
+		for _, e := range entries {
+			if !strings.HasPrefix(e.Name(), ".") {
+				installedNamesCache[c] = e.Name()
+				out = append(out, e.Name())
+			}
+		}
+		os.RemoveAll(dir)
+	}
+	return out
 }
 
 func firstLineC19(err error) string {
